@@ -10,7 +10,7 @@ from graphql.language import OperationDefinitionNode
 
 from ..gen.data import h, make_value
 from ..gen.doc import DocGen
-from ..gen.schemas import rich
+from ..gen.schemas import rich, rich_inc
 from ..mon.aharness import Harness
 from ..mon.loop import Run, Scheduler
 from ..ref.executor import Ref
@@ -33,6 +33,20 @@ REQUIRED_COUNTERS = ["streams_run", "responses_compared_with_R3", "source_failur
 
 class CleanupError(Exception):
     pass
+
+
+class EventRecord(Exception):
+    """A payload object that derives from Exception (e.g. an error notification delivered as an event)."""
+
+    def __init__(self, i):
+        super().__init__(f'event {i}')
+        self.ev = i
+
+
+class StopIterationLike(KeyError):
+    def __init__(self, i):
+        super().__init__(i)
+        self.ev = i
 
 
 class SourceError(Exception):
@@ -299,9 +313,9 @@ def judge(ctx, schema, doc, src, variables, seed, scenario, fault, run, sched, h
 
 
 def check_case(ctx, seed, k):
-    schema = rich()
+    schema = rich_inc()      # with the experimental directives: a subscription may carry them switched off (if: false)
     rng = random.Random(seed)
-    g = DocGen(schema, rng, ops=('subscription',), max_depth=3)
+    g = DocGen(schema, rng, ops=('subscription',), max_depth=3, p_defer=0.15, p_stream=0.25)
     src = g.gen('subscription')
     try:
         doc = parse(src)
@@ -313,7 +327,9 @@ def check_case(ctx, seed, k):
     variables = g.variables()
     fault = [0.0, 0.12][seed % 2]
     n = rng.choice([0, 1, 2, 3, 3, 5, 8])
-    payloads = [rng.choice([{'ev': i}, None, 0, '', {'ev': i}]) for i in range(n)]
+    # whatever the source emits is an event: records, None, falsy scalars, lists, and objects that happen to derive from
+    # Exception (an error-notification record is still a payload, not a failure of the source)
+    payloads = [rng.choice([{'ev': i}, None, 0, '', {'ev': i}, EventRecord(i), [i], False, StopIterationLike(i)]) for i in range(n)]
     kind = rng.random()
     scenario = {'events': n, 'payloads': payloads}
     if kind < 0.25:
